@@ -32,8 +32,9 @@ TxCtx(name) ==
       [] name = "C" -> [ver |-> 2, lock |-> P(29, 13460736),  seq |-> P(0, 4194314)]       \* time lock = threshold, relative time 10
       [] name = "D" -> [ver |-> 2, lock |-> P(255, 16777215), seq |-> P(128, 10)]          \* max lock time, disable bit in sequence
       [] name = "E" -> [ver |-> 2, lock |-> P(0, 0),          seq |-> P(0, 65535)]         \* zero lock, max relative height
+      [] name = "F" -> [ver |-> 1, lock |-> P(0, 500),        seq |-> P(0, 10)]            \* as A but transaction version 1
 
-CtxNames == {"A", "B", "C", "D", "E"}
+CtxNames == {"A", "B", "C", "D", "E", "F"}
 Config(t) == [fl |-> FlagSet(t[2]), tx |-> TxCtx(t[3])]
 
 \* the binder reads the tables it has to concretise from TLC's output
